@@ -119,6 +119,19 @@ def _optional_not_given(t):
     return None
 
 
+def rule_forward_sphere(ctx, rid):
+    """geocentric2cart alone (shared with C06: the default metric of GeoIndex is the chord between these points)"""
+    ctx.rule(rid, "T5", "geocentric2cart(r, phi, lam) = (r cos phi cos lam, r cos phi sin lam, r sin phi) for every latitude, the poles included")
+    r = sp.Symbol("r", positive=True)
+    f = ctx.func(GEO, "geocentric2cart")
+    hooks = {"sin": lambda x: sp_ if x == PHI * sp.pi / 180 else (sl_ if x == LAM * sp.pi / 180 else sp.sin(x)),
+             "cos": lambda x: cp_ if x == PHI * sp.pi / 180 else (cl_ if x == LAM * sp.pi / 180 else sp.cos(x))}
+    ev = Sym(ctx.repo, hooks=hooks)
+    x, y, z = ev.call(GEO, "geocentric2cart", r, PHI, LAM)
+    zero(ctx, "geocentric2cart components", (x - r * cp_ * cl_) ** 2 + (y - r * cp_ * sl_) ** 2 + (z - r * sp_) ** 2, "x = %s, y = %s, z = %s" % (x, y, z),
+         "(r cos phi cos lam, r cos phi sin lam, r sin phi)", f.node, f)
+
+
 def rule_sphere(ctx):
     ctx.rule("C07.sphere", "T5", "geocentric2cart and cart2geocentric are mutually inverse")
     r = sp.Symbol("r", positive=True)
